@@ -152,7 +152,13 @@ fn execute_isolated(sc: &Scenario) -> exec::Outcome {
             .spawn_scoped(s, || props::execute(sc))
             .expect("spawn")
             .join()
-            .unwrap_or_else(|_| exec::Outcome::clean(&prng::Digest::new(), Stats::default()))
+            .unwrap_or_else(|e| {
+                // a panic that escaped every guard: a bug in the simulator, or engine code called
+                // outside a guard - never swallow it
+                let msg = e.downcast_ref::<String>().cloned().or_else(|| e.downcast_ref::<&str>().map(|s| s.to_string())).unwrap_or_default();
+                println!("HARNESS-ERROR: scenario {} {} run {} panicked outside a guard: {}", sc.property, sc.kind, sc.run, msg);
+                std::process::exit(2);
+            })
     })
 }
 
@@ -219,6 +225,8 @@ fn read_replay(path: &str) -> Result<(Scenario, Option<String>), String> {
 }
 
 fn cmd_replay(a: &Args) -> i32 {
+    // (see props::c12::exec_process)
+    std::env::set_var("TAUSIM_PROCESS_ROUNDS", "8");
     let path = match a.pos.get(1) {
         Some(p) => p,
         None => {
